@@ -316,3 +316,40 @@ def prefs_dc_unknown_keys(V):
         V.check('role' not in data and 'zz' not in data, 'loss:unknown-key-accepted', det)
         V.check(plain[0] == 'ok' and plain[1] == loss[1], 'restrict:different-value-with-no_data_loss', det)
     V.cover('both' if loss[0] == 'ok' else 'plain-only' if plain[0] == 'ok' else 'reject')
+
+
+# ------------------------------------------------------------------ extra tuple items under every spelling of no_data_loss
+class StrictOptions(Options):
+    no_data_loss = True
+
+
+TUPLE_OPTS = {
+    'no_data_loss': lambda: Options(no_data_loss=True),
+    'no_data_loss+addition=True': lambda: Options(no_data_loss=True, addition=True),
+    'no_data_loss+addition=int': lambda: Options(no_data_loss=True, addition=int),
+    'subclass-attribute': lambda: StrictOptions(),
+    'none': lambda: Options(),
+}
+
+
+@ob('prefs/tuple-extra-items', marks=['both', 'plain-only'], budget=(40, 100),
+    bounds='Tuple[int, str] from lists / tuples of 2..4 items under Options(no_data_loss=True), the same with addition=True / addition=int, '
+           'and an Options subclass that declares no_data_loss = True as a class attribute: extra items are rejected under every '
+           'spelling; what is accepted under the flag is accepted, equal, without it')
+def prefs_tuple_extra_items(V):
+    T = Rule.parse_annotation(Tuple[int, str])
+    x = V.pick('x', [[1, 'a'], (1, 'a'), [1, 'a', 3], (1, 'a', 3, 4), ['1', 'a', None]])
+    name = V.pick('options', sorted(TUPLE_OPTS))
+    try:
+        r = ('ok', type_transform(x, T, TUPLE_OPTS[name]()))
+    except Exception as e:  # noqa
+        r = ('err', type(e).__name__)
+    try:
+        plain = ('ok', type_transform(x, T))
+    except Exception as e:  # noqa
+        plain = ('err', type(e).__name__)
+    det = lambda: 'Tuple[int, str] <- %r under %s: %r ; without options %r' % (x, name, r, plain)
+    if name != 'none' and r[0] == 'ok':
+        V.check(len(x) <= 2, 'loss:extra-tuple-items-accepted', det)
+        V.check(plain[0] == 'ok' and plain[1][:2] == r[1][:2], 'restrict:different-value-with-no_data_loss', det)
+    V.cover('both' if (name != 'none' and r[0] == 'ok') else 'plain-only')
